@@ -1,6 +1,7 @@
 import PgVerif.Proofs.Chart
 import PgVerif.Spec.SPPF
 import PgVerif.Proofs.SPPF
+import PgVerif.Proofs.GLRSound
 /-!
 # C02 — the forest contains every derivation
 
@@ -11,7 +12,10 @@ that list holds exactly the packed alternatives (span, production, split into
 derivable pieces) of the spans that occur top-down in some parse of the input —
 for every grammar (ambiguous, nullable, cyclic) and input. The comparison of the
 implementation forest's packed alternatives with this reference is the bounded
-part (explored scope); see DESIGN.md.
+part (explored scope); see DESIGN.md. About the GLR driver model itself the sound
+half is a theorem (`C02_glr_model_forest_only_parses`): its packed forest holds
+only parse trees; that it holds *every* one is false of the pinned reducer
+(F-GLR-1/2) and is what the comparison with the exact reference decides.
 -/
 namespace Pg
 
@@ -56,5 +60,15 @@ theorem C02_reference_sppf_exact (hin : InputOK inp) (fuel : Nat) (consume : Boo
     (h : sppfAlts g inp fuel consume = some alts) (a : PAlt) :
     a ∈ alts ↔ Useful g inp consume (a.A, a.i, a.j) ∧ PackedAlt g inp a :=
   sppfAlts_correct hin fuel consume alts h a
+
+/-- The packed forest of the GLR driver model holds only parse trees of the input: every choice of
+one possibility per link below a root link. For every grammar, well-formed table, input with
+idempotent layout skipping, lexical mode and fuel. -/
+theorem C02_glr_model_forest_only_parses (T : Table) (hw : T.wf g = true)
+    (hidem : ∀ p, inp.skip (inp.skip p) = inp.skip p) (lexDis : Bool) (fuel : Nat) (sF : GLR.GState)
+    (h : GLR.parseGLR g T inp true lexDis fuel = .forest sF)
+    (a : Nat) (ha : a ∈ sF.accepted) (l : Nat) (hl : l ∈ sF.parents a) (t : Tree) (ht : GLR.TreeOf sF l t) :
+    IsParseOf g inp t :=
+  (GLR.parseGLR_forest_sound hw hidem true lexDis fuel sF h a ha l hl t ht).2 rfl
 
 end Pg
